@@ -79,6 +79,7 @@ class Case:
         c.tmp_is_file = getattr(self, "tmp_is_file", False)
         c.tmp_xdev = getattr(self, "tmp_xdev", False)
         c.warm = getattr(self, "warm", False)
+        c.residue = getattr(self, "residue", False)
         return c
 
     def cleanup(self):
@@ -117,6 +118,12 @@ class Case:
             else:
                 shutil.rmtree(xd, ignore_errors=True)
         open(os.path.join(root, "store.yaml"), "w").write(CFG % (base, base64.b64encode(HMAC1).decode()))
+        if getattr(self, "residue", False):              # what a killed earlier operation may leave in the work area (permitted residue)
+            td = os.path.join(base, ".tmp")
+            os.makedirs(td, mode=0o700, exist_ok=True)
+            junk = scrypt_record(b"some earlier password").encode() + b"stale: " + b"Z" * 3000 + b"\nmore-stale: yes\n"
+            for nm in (self.user, self.user + ".user", self.user + ".admin", "%s.user.tmp" % self.user, "tmp", "0"):
+                open(os.path.join(td, nm), "wb").write(junk)
         if getattr(self, "warm", False):                 # the process has used another store directory before this operation
             wb = os.path.join(root, "warm", "base")
             os.makedirs(wb, mode=0o700)
@@ -412,6 +419,9 @@ def standard_cases(thorough=False):
     for c in (Case("update-tmp-otherfs", "update", had="admin", aux=b"totp: QUJD\n"), Case("add-tmp-otherfs", "add")):
         c.tmp_xdev = True
         cs.append(c)
+    for c in (Case("update-over-crash-residue", "update", had="user", aux=b"totp: QUJD\n"), Case("add-over-crash-residue", "add", target_admin=True)):
+        c.residue = True
+        cs.append(c)
     for c in (Case("add-after-other-store", "add"), Case("update-after-other-store", "update", had="user", aux=b"x: y\n"),
               Case("setadmin-after-other-store", "setadmin", had="user", target_admin=True), Case("remove-after-other-store", "remove", had="admin")):
         c.warm = True
@@ -501,8 +511,23 @@ def baselines(ctx, drv, cases):
             ctx.inconclusive.append("%s: %s" % (c.name, pr))
         ok = r["res"]["ok"] or c.op == "remove"
         lines = [dict(ev="reset", **c.ctx())] + evs + [{"ev": "ret", "r": "ok" if ok else "fail"}]
-        out.append({"case": c, "run": r, "events": evs, "lines": lines, "ok": ok,
-                    "final_view": view_of(c, drv.pi(c.base), c.old)})
+        fv = view_of(c, drv.pi(c.base), c.old)
+        out.append({"case": c, "run": r, "events": evs, "lines": lines, "ok": ok, "final_view": fv})
+        # the directory after the undisturbed operation: the whole new record (with the old auxiliary data) or, if refused, no change
+        init = {"F": "old" if c.had else "absent", "G": "absent"}
+        if not r["res"]["ok"] and c.op != "remove":
+            want = init
+        elif c.op in ("add", "update", "init"):
+            want = {"F": "new", "G": "absent"}
+        elif c.op == "setadmin":
+            want = {"F": "absent", "G": "old"} if (c.had and ((c.had == "admin") != c.admin)) else init
+        elif c.op == "remove":
+            want = {"F": "absent", "G": "absent"}
+        else:
+            want = init
+        if fv != want:
+            ctx.violation(ctx.pid if ctx.pid in ("C08", "C15", "C01", "C16") else "C15", "final-state:%s" % c.name,
+                          "after the undisturbed %s (reported ok=%s) the user's files are %s, expected %s" % (c.op, r["res"]["ok"], fv, want))
         if getattr(c, "xdev", None):
             shutil.rmtree(c.xdev, ignore_errors=True)
     return out
